@@ -34,7 +34,8 @@ class Contract:
                  modifies=None, make_result=None, calls=None, consts=None, local_sorts=None, call_names=(),
                  static=False, with_handler=None, setup=None, on_yield=None, notes="", ghost=None,
                  exc_ensures=None, receiver_from_call=False, lemma_facts=None, harness=None, returns=None, constructor=False,
-                 variant=None, new_obj=None, init_obj=None):
+                 variant=None, new_obj=None, init_obj=None, yields=None,
+                 yield_may_throw=None, generator=False):
         self.file, self.qualname, self.params = file, qualname, params
         self.requires, self.ensures, self.raises = requires, ensures, raises or {}
         self.loops = loops or {}
@@ -58,6 +59,9 @@ class Contract:
         self.variant = variant
         self.new_obj = new_obj      # ObjT of the object a constructor call returns (callers' view)
         self.init_obj = init_obj    # lambda eng, st, bound, ref: st  - attributes that ARE the arguments
+        self.yields = yields        # lambda S, a, v: clauses that must hold at every ``yield v``
+        self.yield_may_throw = yield_may_throw
+        self.generator = generator or yields is not None
         if returns is not None and make_result is None:
             def _mk(eng, st, bound, _spec=returns):
                 return make_symbolic(eng, eng.new_base("ret:" + qualname), _spec, st, set())
@@ -148,6 +152,9 @@ def make_symbolic(eng, name, spec, st, assumptions):
                 cell["#decl"][a] = sp
         st = St(st.env, {**st.heap, name: cell}, st.pc, st.ghost)
         return Ref(name, "obj"), st
+    from .generators import IterT, make_iter
+    if isinstance(spec, IterT):
+        return make_iter(eng, name, spec, st)
     if callable(spec):
         return spec(eng, name, st)
     raise Unsupported(f"parameter spec {spec!r}")
@@ -193,6 +200,9 @@ def generate(contract, registry=REG, finite=None, grid=None):
         for p in contract.params:
             if p not in params and not p.startswith("#"):
                 raise BindingError(f"contract parameter {p} is not a parameter of {contract.key}")
+        if contract.generator:
+            from .generators import init_out
+            st = init_out(st)
         if contract.setup:
             st = contract.setup(eng, st)
         entry = St(dict(st.env), dict(st.heap), list(st.pc), dict(st.ghost))
@@ -211,9 +221,18 @@ def generate(contract, registry=REG, finite=None, grid=None):
         fninfo = {"ordinals": loop_ordinals(fn), "entry": entry, "node": fn}
         paths = [0]
 
+        def exit_ns(s):
+            """Namespace for exit clauses: a.<param> is the ENTRY binding (contents as of now); the current
+            values of rebound parameters and of locals are under a.local."""
+            ns = eng.namespace(s, entry=entry)
+            ns.__dict__["local"] = eng.namespace(s)
+            for p_, v_ in entry.env.items():
+                ns.__dict__[p_] = eng.resolve(v_, s.heap)
+            return ns
+
         def on_return(v, s):
             paths[0] += 1
-            ns = eng.namespace(s, entry=entry)
+            ns = exit_ns(s)
             res = eng.resolve(v, s.heap)
             if contract.ensures is not None:
                 eng.oblige_clauses("postcondition", "return", s, contract.ensures(S, ns, res), None)
@@ -221,7 +240,7 @@ def generate(contract, registry=REG, finite=None, grid=None):
 
         def on_raise(exc, s):
             paths[0] += 1
-            ns = eng.namespace(s, entry=entry)
+            ns = exit_ns(s)
             cond = contract.raises.get(exc.cls)
             if cond is None:
                 # is a parent class allowed?
@@ -239,7 +258,8 @@ def generate(contract, registry=REG, finite=None, grid=None):
                 if contract.exc_ensures is not None:
                     eng.oblige_clauses("exceptional", f"state after raise {exc.cls}", s,
                                        contract.exc_ensures(S, ns, exc))
-                eng.canary(f"raise {exc.cls}", s)
+                if exc.origin == "stmt":  # a raise statement of this function must be reachable
+                    eng.canary(f"raise {exc.cls}", s)
 
         fr = Fr(on_return=on_return, on_raise=on_raise, fn=fninfo,
                 on_yield=(lambda v, s, k: contract.on_yield(eng, v, s, fr, k)) if contract.on_yield else None)
